@@ -165,6 +165,8 @@ def frame_alphabet() -> List[Tuple[int, bytes]]:
         (RX, bytes([0x10, 0x00, 0x00, 0x00, 0x00, 0x0A, 0x01, 0x02])),  # FF with the 32-bit length escape
         (RX, bytes([0x05, 0xA1])),  # SF announcing more than it carries
         (RX, bytes([0x32, 0x00, 0x00])),  # FC overflow/abort
+        (RX, bytes([0x30])),  # flow control cut behind its first byte
+        (RX, bytes([0x31, 0x00])),  # flow control (wait) cut behind its second byte
         (RX2, bytes([0x10, 9]) + pattern(9, 9)[:6]),  # FF on another known id
         (RX2, bytes([0x21]) + pattern(9, 9)[6:9]),  # its CF
         (RX2, bytes([0x21, 0x51, 0x52, 0x53])),  # CF on another known id
@@ -267,6 +269,8 @@ def fault_menu(stream: List[Tuple[int, bytes]], pos: int) -> List[Tuple[str, Lis
     out.append(("stray-cf-before", [(cid, bytes([0x20 | nxt_sn, 0x71, 0x72, 0x73, 0x74, 0x75, 0x76, 0x77])), (cid, d)]))
     out.append(("stray-cf-after", [(cid, d), (cid, bytes([0x20 | nxt_sn, 0x71, 0x72, 0x73, 0x74, 0x75, 0x76, 0x77]))]))
     out.append(("fc-after", [(cid, d), (cid, bytes([0x30, 0x00, 0x00]))]))
+    out.append(("short-fc-after", [(cid, d), (cid, bytes([0x30]))]))
+    out.append(("sf-after", [(cid, d), (cid, bytes([0x03, 0x61, 0x62, 0x63]))]))  # an unrelated single frame inside the transfer
     out.append(("empty-after", [(cid, d), (cid, b"")]))
     return out
 
@@ -410,7 +414,7 @@ def run(ctx: Ctx) -> None:
     ctx.bounds = {"bfs_depth": depth, "frame_alphabet": [[c, fh(d)] for c, d in ALPHA], "fault_bound": 2,
                   "base_streams": {k: len(v) for k, v in streams.items()},
                   "fault_kinds": ["drop", "duplicate", "swap", "truncate0/1/2", "pci high nibble 0..15",
-                                  "sequence number 0..15", "stray CF before/after", "FC", "empty frame"]}
+                                  "sequence number 0..15", "stray CF before/after", "FC", "FC cut to one byte", "single frame inside the transfer", "empty frame"]}
     ctx.rule = ("(a) every placement of 0, 1 and 2 faults on each base stream, each followed by a probe transfer; (b) BFS "
                 "over all frame sequences up to the depth bound over the frame alphabet, deduplicated on (real per-ID "
                 "state, monitor state); non-trivial = distinct (base, faults, reported telegrams) outcomes")
